@@ -302,7 +302,7 @@ def read_ids(path, delimiter=None, timestamptype=None):
     for line in f:
         s = line.rstrip().split(delimiter)
         ids[timestamptype(s[-1])] = None
-        if len(line) == 4:
+        if len(s) == 4:
             if s[-2] not in ['+', '-']:
                 ids[timestamptype(s[-2])] = None
 
